@@ -544,13 +544,14 @@ Lemma length_cd_negative gm (neg : list bits) : length (cd_negative ROps gm neg)
 Proof. unfold cd_negative, vdivs; apply map_length. Qed.
 
 Theorem cd_gradient_am_binary : forall (am : brbm) g0 rest (neg vk : list bits) i,
+  (0 < length neg)%nat ->            (* the divisor float(neg_batch.shape[0]) is not 0 *)
   length (bW am) = length (bc am) ->
   Forall (fun v => length v = length (bb am)) vk ->
   length g0 = b_num_pars am -> (i < b_num_pars am)%nat ->
   nth i (nth 0 (cbg_binary ROps am (g0 :: rest) neg vk) []) 0 =
   nth i g0 0 - sum ROps (map (fun v => nth i (b_energy_grad ROps am v) 0) vk) / INR (length neg).
 Proof.
-  intros am g0 rest neg vk i HW Hvk Hg Hi. unfold cbg_binary.
+  intros am g0 rest neg vk i _ HW Hvk Hg Hi. unfold cbg_binary.
   assert (HF : Forall (fun r => length r = b_num_pars am) (map (b_energy_grad ROps am) vk)).
   { apply Forall_forall. intros x Hx. apply in_map_iff in Hx. destruct Hx as [v [<- Hv]].
     apply length_b_energy_grad; [assumption|]. rewrite Forall_forall in Hvk. apply Hvk; assumption. }
@@ -561,13 +562,14 @@ Proof.
 Qed.
 
 Theorem cd_gradient_am_purification : forall (am : prbm) g0 rest (neg vk : list bits) i,
+  (0 < length neg)%nat ->
   length (pW am) = length (pc am) -> length (pU am) = length (pd am) ->
   Forall (fun v => length v = length (pb am)) vk ->
   length g0 = p_num_pars am -> (i < p_num_pars am)%nat ->
   nth i (nth 0 (cbg_purification ROps am (g0 :: rest) neg vk) []) 0 =
   nth i g0 0 - sum ROps (map (fun v => nth i (p_energy_grad ROps am v) 0) vk) / INR (length neg).
 Proof.
-  intros am g0 rest neg vk i HW HU Hvk Hg Hi. unfold cbg_purification.
+  intros am g0 rest neg vk i _ HW HU Hvk Hg Hi. unfold cbg_purification.
   assert (HF : Forall (fun r => length r = p_num_pars am) (map (p_energy_grad ROps am) vk)).
   { apply Forall_forall. intros x Hx. apply in_map_iff in Hx. destruct Hx as [v [<- Hv]].
     apply length_p_energy_grad; [assumption | assumption |]. rewrite Forall_forall in Hvk. apply Hvk; assumption. }
@@ -579,6 +581,7 @@ Qed.
 
 (* the Gibbs chain keeps the batch shape, so the negative phase is the MEAN over the chain end states *)
 Corollary cd_negative_is_mean_binary : forall (am : brbm) g0 rest (neg vk : list bits) i,
+  (0 < length neg)%nat ->
   length (bW am) = length (bc am) ->
   Forall (fun v => length v = length (bb am)) vk ->
   length g0 = b_num_pars am -> (i < b_num_pars am)%nat -> length vk = length neg ->
